@@ -200,6 +200,17 @@ func scalarOperands(t *elemType, rc *rec) (r, x, y, tmp Scalar) {
 	if rc.Op == "Sign" || rc.Op == "Equals" || rc.Op == "Greater" || rc.Op == "Smaller" {
 		r = x // the receiver is the first operand
 	}
+	switch rc.Alias { // in-place update: the receiver IS an operand
+	case "ra":
+		r = x
+	case "rb":
+		r = y
+	case "rab":
+		if t.class == "real" {
+			x.(MagicScalar).SetVariable(0, 1, 2)
+		}
+		r, y = x, x
+	}
 	return
 }
 
@@ -390,6 +401,9 @@ func scalarCase(rc *rec, line []byte, out *vh.Out, st *stats) {
 	st.records++
 	st.scalar += n
 	st.byOp["S:"+rc.Op] += n
+	if rc.Alias != "" && rc.Alias != "-" {
+		st.byOp["S:alias:"+rc.Alias] += n
+	}
 	for p := range pairs {
 		st.pairs[p] = true
 	}
